@@ -74,20 +74,53 @@ def run(ctx, ck) -> None:
         if inner is not None:
             S = ('var', fn.args.args[0].arg)
             L = ('var', inner.args.args[0].arg)
+            from ..terms import facts as path_facts
+
             rets = [p for p in function_paths(inner) if p.exit == 'return']
-            good_new = False
+            zero = ('const', '0')
+
+            def normalised(axis_t, attr, fs) -> bool:
+                """axis_t is self.<attr> normalised with the rank of the leaf, given the facts of the path."""
+                raw = ('attr', S, attr)
+                neg = ('lt', raw, zero) in fs
+                nonneg = ('le', zero, raw) in fs
+                shifted = (('binop', '+', ('attr', L, 'ndim'), raw), ('binop', '+', raw, ('attr', L, 'ndim')))
+                if axis_t == raw:
+                    return nonneg
+                if axis_t in shifted:
+                    return neg
+                both = (('ifexp', ('cmp', 'lt', raw, zero), shifted[0], raw), ('ifexp', ('cmp', 'lt', raw, zero), shifted[1], raw),
+                        ('ifexp', ('cmp', 'ge', raw, zero), raw, shifted[0]), ('ifexp', ('cmp', 'ge', raw, zero), raw, shifted[1]),
+                        ('binop', '%', raw, ('attr', L, 'ndim')))
+                return axis_t in both
+
+            n_reshape = 0
+            bad_paths = []
             for p in rets:
                 e = path_env(p)
                 tt = term(p.node.value, e)
-                fa, la = e.get('first_axis'), e.get('last_axis')
-                norm_f = ('ifexp', ('cmp', 'lt', ('attr', S, 'first_axis'), ('const', '0')), ('binop', '+', ('attr', L, 'ndim'), ('attr', S, 'first_axis')), ('attr', S, 'first_axis'))
-                norm_l = ('ifexp', ('cmp', 'lt', ('attr', S, 'last_axis'), ('const', '0')), ('binop', '+', ('attr', L, 'ndim'), ('attr', S, 'last_axis')), ('attr', S, 'last_axis'))
-                want_shape = ('binop', '+', ('binop', '+', ('sub', ('attr', L, 'shape'), ('slice', ('none',), fa, ('none',))), ('tuple', ('unop', 'neg', ('const', '1')))),
-                              ('sub', ('attr', L, 'shape'), ('slice', ('binop', '+', la, ('const', '1')), ('none',), ('none',))))
-                if tt == ('call', ('attr', L, 'reshape'), (want_shape,), ()) and fa == norm_f and la == norm_l:
-                    good_new = True
-                why = show(tt)
-            ok = good_new
+                fs = path_facts(p)
+                if tt == L:
+                    continue  # nothing to merge on this path (first == last)
+                shape = None
+                if tt[0] == 'call' and tt[1] == ('attr', L, 'reshape') and len(tt[2]) == 1:
+                    shape = tt[2][0]
+                elif tt[0] == 'call' and tt[1] == ('attr', ('var', 'jnp'), 'reshape') and len(tt[2]) == 2 and tt[2][0] == L:
+                    shape = tt[2][1]
+                good = False
+                if shape is not None and shape[0] == 'binop' and shape[1] == '+' and shape[2][0] == 'binop' and shape[2][1] == '+':
+                    head, mid, tail = shape[2][2], shape[2][3], shape[3]
+                    if (head[0] == 'sub' and head[1] == ('attr', L, 'shape') and head[2][0] == 'slice' and head[2][1] in (('none',), zero) and head[2][3] == ('none',)
+                            and mid == ('tuple', ('unop', 'neg', ('const', '1')))
+                            and tail[0] == 'sub' and tail[1] == ('attr', L, 'shape') and tail[2][0] == 'slice' and tail[2][2] == ('none',) and tail[2][3] == ('none',)
+                            and tail[2][1][0] == 'binop' and tail[2][1][1] == '+' and tail[2][1][3] == ('const', '1')):
+                        fa, la = head[2][2], tail[2][1][2]
+                        good = normalised(fa, 'first_axis', fs) and normalised(la, 'last_axis', fs)
+                n_reshape += 1
+                if not good:
+                    bad_paths.append(show(tt))
+            ok = n_reshape >= 1 and not bad_paths
+            why = bad_paths[0] if bad_paths else 'no path reshapes the leaf'
     ck.expect('A1', ok, fn or ravel.node, 'axes first..last (negative ones normalised with the rank of the leaf) are merged: shape[:first] + (-1,) + shape[last+1:]',
               f'RavelOperator.mv does not merge exactly the axes first..last of each leaf: {why}', instance='ravel merged axes')
 
